@@ -163,6 +163,13 @@ def corpus():
     w = {"files": {b"d/x": F(b"x\n")}, "dirs": [], "applied": None, "series": b"p1.patch\np2.patch\n",
          "patches": {b"p1.patch": b"--- a/d/x\n+++ /dev/null\n@@ -1 +0,0 @@\n-x\n", b"p2.patch": b"--- a/d/y\n+++ b/d/y\n@@ -1 +1 @@\n-q\n+r\n"}}
     out.append((w, dict(base)))
+    # a failing file in a directory that does not exist (its reject is bypassed) before / after / between other
+    # failing files whose rejects must still be written
+    miss = b"--- a/nodir/x\n+++ b/nodir/x\n@@ -1 +1 @@\n-q\n+r\n"
+    bad_f = b"--- a/f\n+++ b/f\n@@ -1,2 +1,2 @@\n a\n-X\n+B\n"
+    bad_g = b"--- a/keep/g\n+++ b/keep/g\n@@ -1 +1 @@\n-nope\n+y\n"
+    for order in ((bad_f, miss, bad_g), (miss, bad_f, bad_g), (bad_f, bad_g, miss)):
+        out.append(mk({b"f": F(body), b"keep/g": F(b"x\n")}, b"".join(order)))
     # reversed entry, -p0, quoted name
     out.append(mk({b"f": F(body)}, b"--- f\n+++ f\n@@ -1,2 +1,2 @@\n a\n-X\n+B\n", b"p.patch -p0 -R\n"))
     for w, c in list(out):
